@@ -1242,6 +1242,16 @@ class Driver:
         b = self._filebytes(a)
         return hashlib.sha256(b).hexdigest()[:16] if b is not None else "absent"
 
+    def obs_sha_other(self, a):
+        """digest of the second file of the execution (label 1), rank 0"""
+        if self.rank != 0:
+            return None
+        p = self.ctx.paths.get("1")
+        if p is None or not os.path.exists(p):
+            return "absent"
+        with open(p, "rb") as fh:
+            return hashlib.sha256(fh.read()).hexdigest()[:16]
+
     def obs_exists(self, a):
         p = self.ctx.paths.get(str(a.get("f", 0)))
         return int(bool(p and os.path.exists(p)))
